@@ -432,6 +432,10 @@ func init() {
 				d := w.Start() + Day(r.Range(0, 300))
 				w.Weather.Events = append(w.Weather.Events, WeatherEvent{Day: d, Kind: "frost", Val: float64(-r.Range(18, 40)), Len: r.Range(3, 30)})
 			}
+			if idx%8 == 5 {
+				// a perennial stand that is cut and re-established (its rooting depth starts again while the stand remains)
+				perennialStand(r, w)
+			}
 			return &Scenario{Prop: "C08", Kind: "single", World: w, Bug: genBug(r.Sub("bug", 0), false)}
 		},
 		Exec: func(sc *Scenario, env *Env) *Result {
